@@ -36,7 +36,8 @@ func checkInvariants(n *chain.Node) (route, msg string, broken bool) {
 }
 
 var haqqKinds = map[string]bool{"vest-create": true, "vest-clawback": true, "lv-liquidate": true, "lv-redeem": true, "dao-fund": true, "dao-transfer": true,
-	"eth-send": true, "eth-create": true, "eth-call": true, "eth-delegate": true, "eth-withdraw": true, "eth-prog": true}
+	"eth-send": true, "eth-create": true, "eth-call": true, "eth-delegate": true, "eth-withdraw": true, "eth-prog": true,
+	"eth-fanout": true, "erc20-deploy": true, "erc20-mint": true, "erc20-transfer": true, "erc20-convert": true}
 
 func histClasses(st *ev.Stats, r *hRunner) (haqqOK, stakingOK int) {
 	for k, c := range r.st.OK {
@@ -52,6 +53,11 @@ func histClasses(st *ev.Stats, r *hRunner) (haqqOK, stakingOK int) {
 	}
 	if r.st.Slashes > 0 {
 		st.Class("slash")
+	}
+	for k, c := range r.st.GovOK {
+		if c > 0 {
+			st.Class("gov-ok:" + k)
+		}
 	}
 	return
 }
